@@ -130,6 +130,14 @@ class C02(core.PropertyCheck):
         "projects are built from parser output only (the property quantifies over projects whose files parse); hand-made ASTs that the parser cannot produce are outside the claim",
     ]
 
+    def gen_tables(self):
+        import gen_guards
+        try:
+            gen_guards.write()
+        except Exception as e:  # translator broken: reported as a broken tie, then searched
+            return [f"gen_guards: {type(e).__name__}: {e}"]
+        return []
+
     def generate(self, rng, budget, tier):
         for i in range(budget):
             if i % 6 == 5:
